@@ -243,6 +243,46 @@ where
     }
 }
 
+impl GetLeadingTrivia for FunctionArgs {
+    fn leading_trivia(&self) -> Vec<Token> {
+        match self {
+            FunctionArgs::Parentheses { parentheses, .. } => {
+                GetLeadingTrivia::leading_trivia(parentheses.tokens().0)
+            }
+            FunctionArgs::String(token_reference) => {
+                GetLeadingTrivia::leading_trivia(token_reference)
+            }
+            FunctionArgs::TableConstructor(table_constructor) => {
+                GetLeadingTrivia::leading_trivia(table_constructor.braces().tokens().0)
+            }
+            other => panic!("unknown node {:?}", other),
+        }
+    }
+}
+
+/// The whitespace which separates a node from the token in front of it on the same line.
+/// Comments in front of the node end with a line break, so the node starts a line of its own: it is then indented
+/// (if that has not happened yet) rather than separated.
+pub fn separator_or_indent(
+    ctx: &Context,
+    leading_trivia: &[Token],
+    shape: Shape,
+    separator: Token,
+) -> Token {
+    let len = leading_trivia.len();
+
+    if len >= 1 && trivia_is_newline(&leading_trivia[len - 1]) {
+        create_indent_trivia(ctx, shape)
+    } else if len >= 2
+        && trivia_is_whitespace(&leading_trivia[len - 1])
+        && trivia_is_newline(&leading_trivia[len - 2])
+    {
+        Token::new(TokenType::spaces(0))
+    } else {
+        separator
+    }
+}
+
 // TODO: Can we clean this up? A lot of this code is repeated in trivia_formatter
 impl GetTrailingTrivia for FunctionArgs {
     fn trailing_trivia(&self) -> Vec<Token> {
